@@ -4,19 +4,26 @@
    and expression switches.  Go's assignment semantics: first the index operands on the left and the
    expressions on the right are evaluated in the usual order, then the assignments are carried out left
    to right.  `x op= y` is `x = x op (y)` with x's operands evaluated once.  No proofs here. *)
-From GC Require Import Base Model_Expr.
+From GC Require Import Base Model_Expr Model_BoolSimp.
 From Coq Require Import QArith.
 Close Scope Q_scope.
 Open Scope string_scope.
 
 Inductive lval :=
 | LVar (x : string) (t : ty)
-| LIdx (x : string) (i : expr).            (* x[i], x a variable of type []int *)
+| LIdx (x : string) (i : expr)             (* x[i], x a variable of type []int *)
+(* round 5: the left operands the statement rules are applied to in real code *)
+| LVarK (x : string) (k : vkind) (t : ty)  (* a variable of a defined type *)
+| LIdxK (x : string) (k : vkind) (i : expr) (* x[i], x a variable of a defined []int type or of an array type *)
+| LSel (x f : string) (k : vkind) (t : ty). (* x.f, x a pointer-to-struct variable *)
 
 Definition lval_expr (l : lval) : expr :=
   match l with
   | LVar x t => EIdent x t
   | LIdx x i => EIndex (EIdent x TInts) i
+  | LVarK x k t => EVarK x k t
+  | LIdxK x k i => EIndex (EVarK x k TInts) i
+  | LSel x f k t => ESel x f k t
   end.
 
 Inductive stmt :=
@@ -30,7 +37,7 @@ Inductive stmt :=
 | SSkip.
 
 Definition upd_var (en : env) (x : string) (t : ty) (v : value) : env :=
-  {| vars := fun y u => if String.eqb y x && ty_eqb u t then v else vars en y u; funs := funs en |}.
+  {| vars := fun y u => if String.eqb y x && ty_eqb u t then v else vars en y u; funs := funs en; nilp := nilp en |}.
 
 (* a left operand with its index evaluated *)
 Inductive loc := LocVar (x : string) (t : ty) | LocIdx (x : string) (k : Z).
@@ -45,6 +52,16 @@ Definition eval_lval (en : env) (l : lval) (h : hist) : option (res loc * hist) 
       | Some (RPanic, h1) => Some (RPanic, h1)
       | None => None
       end
+  | LVarK x _ t => Some (RVal (LocVar x t), h)
+  | LIdxK x _ i =>
+      match evalS en i h with
+      | Some (RVal (VInt k), h1) => Some (RVal (LocIdx x k), h1)
+      | Some (RVal _, _) => None
+      | Some (RPanic, h1) => Some (RPanic, h1)
+      | None => None
+      end
+  (* the implicit pointer indirection of the selector is an operand of the left side (phase one) *)
+  | LSel x f _ t => if nilp en x then Some (RPanic, h) else Some (RVal (LocVar (x ++ "." ++ f) t), h)
   end.
 
 Fixpoint set_nth (l : list Z) (i : nat) (v : Z) : option (list Z) :=
@@ -223,3 +240,71 @@ Definition switch_true_rhs cases dflt : stmt := SSwitch None cases dflt.
 Definition val_swap_lhs (tmp : string) (t : ty) (x y : lval) : stmt :=
   SSeq (SDefine tmp t (lval_expr y)) (SSeq (SAssign y (lval_expr x)) (SAssign x (EIdent tmp t))).
 Definition val_swap_rhs (x y : lval) : stmt := SAssign2 y x (lval_expr x) (lval_expr y).
+
+(* ================= the statement rules as the checkers decide them (round 5) =================
+   assignOp (rules.go): the group's rules in source order, the first applicable one reports.  Patterns are
+   matched syntactically ($x twice: astequal), the literal `1` by value; filter m["x"].Pure.  The message shows
+   the source text of $$, $x, $y (compared modulo blanks with go/printer's rendering). *)
+Definition assign_op_ops : list binop := [OAdd; OSub; OMul; OQuo; ORem; OAnd; OOr; OXor; OShl; OShr; OAndNot].
+Definition is_one_lit (e : expr) : bool :=
+  match e with
+  | ELit LInt s _ => match go_int_lit s with Some 1%Z => true | _ => false end
+  | _ => false
+  end.
+Definition assign_op_rewrite (s : stmt) : option stmt :=
+  match s with
+  | SAssign l (EBinary o x y) =>
+      if expr_eqb (lval_expr l) x && rg_pure x && existsb (binop_eqb o) assign_op_ops then
+        if is_one_lit y && binop_eqb o OAdd then Some (SIncDec l true)
+        else if is_one_lit y && binop_eqb o OSub then Some (SIncDec l false)
+        else Some (SAssignOp l o y)
+      else None
+  | _ => None
+  end.
+Definition print_stmt1 (s : stmt) : string :=
+  match s with
+  | SAssign l e => print_expr (lval_expr l) ++ " = " ++ print_expr e
+  | SAssignOp l o e => print_expr (lval_expr l) ++ " " ++ binop_str o ++ "= " ++ print_expr e
+  | SIncDec l inc => print_expr (lval_expr l) ++ (if inc then "++" else "--")
+  | SAssign2 l1 l2 e1 e2 => print_expr (lval_expr l1) ++ ", " ++ print_expr (lval_expr l2) ++ " = " ++ print_expr e1 ++ ", " ++ print_expr e2
+  | SDefine x _ e => x ++ " := " ++ print_expr e
+  | _ => ""
+  end.
+Definition assign_op_msgs (s : stmt) : list string :=
+  match assign_op_rewrite s with
+  | Some s' => ["replace `" ++ print_stmt1 s ++ "` with `" ++ print_stmt1 s' ++ "`"]
+  | None => []
+  end.
+
+(* valSwap: `$tmp := $y; $y = $x; $x = $tmp` anywhere in a statement list; filter m["x"].Pure && m["y"].Pure *)
+Definition val_swap_rewrite (s1 s2 s3 : stmt) : option stmt :=
+  match s1, s2, s3 with
+  | SDefine tmp _ ey, SAssign ly ex, SAssign lx (EIdent tmp' _) =>
+      if String.eqb tmp tmp' && expr_eqb ey (lval_expr ly) && expr_eqb ex (lval_expr lx) && rg_pure ex && rg_pure ey
+      then Some (SAssign2 ly lx ex ey) else None
+  | _, _, _ => None
+  end.
+Fixpoint val_swap_msgs (l : list stmt) : list string :=
+  match l with
+  | s1 :: ((s2 :: s3 :: _) as r) =>
+      let here := match val_swap_rewrite s1 s2 s3 with
+                  | Some s' => ["can re-write as `" ++ print_stmt1 s' ++ "`"]
+                  | None => []
+                  end in
+      (here ++ val_swap_msgs r)%list
+  | _ => []
+  end.
+
+(* switchTrue: `switch true { ... }` — the tag is an identifier SPELLED true *)
+Definition spelled_true (e : expr) : bool :=
+  match e with
+  | EConst x _ | EIdent x _ | EVarK x _ _ => String.eqb x "true"
+  | _ => false
+  end.
+Definition switch_true_rewrite (s : stmt) : option stmt :=
+  match s with
+  | SSwitch (Some t) cases dflt => if spelled_true t then Some (SSwitch None cases dflt) else None
+  | _ => None
+  end.
+Definition switch_true_msgs (s : stmt) : list string :=
+  match switch_true_rewrite s with Some _ => ["replace 'switch true {}' with 'switch {}'"] | None => [] end.
